@@ -107,6 +107,18 @@ def run(pid, P, a, seed, t0):
             # an invariant can no longer be bound to the code: fall back to the bounded stand-in for this function
             degraded.append((q, str(e)))
             continue
+        sel = P.get("select")
+        if sel:
+            import re as _re
+
+            def selected(o):
+                if o.kind.startswith("canary"):
+                    return True
+                for fpat, rx in sel:
+                    if fpat in o.func and not _re.search(rx, f"{o.kind}::{o.clause}"):
+                        return False
+                return True
+            r.obligations = [o for o in r.obligations if selected(o)]
         results.append(r)
         all_obls.extend(r.obligations)
     lemma_obls = []
